@@ -370,7 +370,15 @@ struct Harness
       T val = EV<T>::make(100 + op.c % 20);
       T *before = x.oa->data();
       ownerChanged(a);
-      x.oa->resize(n, val);
+      if (op.c % 3 == 0 && !x.expect.empty()) {
+        // the fill value refers to an element OF THE ARRAY ITSELF (e.g. "pad with the first/last element"),
+        // which std::vector::resize guarantees to handle even when it reallocates
+        size_t k = (op.c / 3) % 2 ? 0 : x.expect.size() - 1;
+        val = x.expect[k];
+        x.oa->resize(n, (*x.oa)[k]);
+        ctx.label("resize-with-own-element");
+      } else
+        x.oa->resize(n, val);
       x.expect.resize(n, val);
       if (before && x.oa->data() != before && !x.expect.empty()) {
         sawRealloc = true;
